@@ -1,3 +1,200 @@
-(* placeholder, replaced below *)
-From Amgcl Require Import Scalar Vec Crs Kernels Dist.
-Theorem C11_placeholder : True. Proof. exact I. Qed.
+(* Properties_C11.v -- C11: distributed matrix algebra equals serial algebra for every
+   contiguous partition.  Statements only; proofs live in DistProofs.v.
+
+   Model (Dist.v): a world is a list indexed by rank; a contiguous partition is the list of
+   per-rank sizes, ZEROS ALLOWED (ranks that own nothing); [split A rparts cparts] is what
+   the distributed_matrix constructor builds on every rank (local part with local column
+   numbers, remote part with global ones); [dm_pattern] is the communication pattern as a
+   pure function of all ranks' remote-column sets; [exchange] is the ghost exchange
+   (gather at the owner, scatter at the receiver in neighbour order); [allreduce_sum]
+   returns the same value on every rank.
+
+   TRUSTED, NOT PROVED: that the MPI runtime realises these pure functions (Allgather,
+   Alltoall, matched Isend/Irecv pairs, Allreduce), i.e. progress, absence of deadlock and
+   independence of message arrival order.  Covered only by the mpirun correspondence runs.
+
+   "any S": holds for every Scalar record (floats with NaN/Inf included);
+   "ring": for every commutative ring with decidable equality, closed at Qc. *)
+From Coq Require Import Sorted.
+From Amgcl Require Import Scalar QcInst Vec Crs Kernels KernelsProofs MatOps Dist DistProofs.
+Local Open Scope nat_scope.
+
+(* ------------------------------------------------------------------ *)
+(* C11-A3: the renumbering map and the mutual consistency of the patterns (no scalars involved) *)
+
+(* idx = [index_of _ (rem_cols M)] is a bijection from the set of distinct remote columns of
+   the rank onto 0..recv_count-1, in increasing column order (as std::sort/std::unique and
+   the loop at distributed_matrix.hpp:115-127 produce it); the renumbered remote matrix is
+   well formed with recv_count columns. *)
+Theorem C11_renumbering_is_bijection (S : Scalar) (M : rank_mat S) :
+  let rc := rem_cols M in
+  (forall c, In c rc <-> exists rw e, In rw (rows (rm_rem M)) /\ In e rw /\ fst e = c) /\
+  NoDup rc /\
+  (forall c, In c rc -> index_of c rc < length rc /\ nth (index_of c rc) rc 0 = c) /\
+  (forall i, i < length rc -> index_of (nth i rc 0) rc = i) /\
+  (forall c c', In c rc -> In c' rc -> c < c' -> index_of c rc < index_of c' rc) /\
+  wf (renumber rc (rm_rem M)) = true.
+Proof.
+  intro rc. pose proof (sort_unique_sorted (flat_map (fun r : row S => map fst r) (rows (rm_rem M)))) as Hs.
+  repeat split.
+  - apply rem_cols_spec.
+  - apply rem_cols_spec.
+  - apply sorted_NoDup. exact Hs.
+  - apply index_of_In. assumption.
+  - apply index_of_In. assumption.
+  - intros i Hi. apply index_of_nth; [apply sorted_NoDup; exact Hs | exact Hi].
+  - intros c c'. apply index_of_mono. exact Hs.
+  - apply renumber_wf.
+Qed.
+Print Assumptions C11_renumbering_is_bijection.
+
+(* for every column partition (empty ranks included) and every world of sorted, in-range
+   remote column lists: (1) what rank q sends to rank d is exactly the slice d expects from
+   q -- same columns, same order -- in q's local numbering; (2) every column of that slice
+   is one of d's remote columns and lies in q's own range (valid gather index);
+   (3) rank d's receive buffer, neighbour by neighbour, is its idx-ordered column list:
+   every remote column is received exactly once. *)
+Theorem C11_patterns_mutually_consistent (cparts : list nat) (rcs : list (list nat)) :
+  length rcs = length cparts ->
+  (forall r, r < length cparts -> rc_ok cparts (nth r rcs [])) ->
+  let pats := comm_pattern cparts rcs in
+  forall q d, q < length cparts -> d < length cparts ->
+    nth d (cp_send (nth q pats dflt_cpat)) []
+      = map (fun c => c - pbeg cparts q) (nth q (cp_recv (nth d pats dflt_cpat)) []) /\
+    (forall c, In c (nth q (cp_recv (nth d pats dflt_cpat)) []) ->
+       In c (cp_rc (nth d pats dflt_cpat)) /\ pbeg cparts q <= c < pbeg cparts q + psize cparts q) /\
+    concat (cp_recv (nth d pats dflt_cpat)) = cp_rc (nth d pats dflt_cpat).
+Proof.
+  intros Hl Hok pats q d Hq Hd. repeat split.
+  - exact (send_recv_consistent cparts rcs Hl q d Hq Hd).
+  - exact (proj1 (recv_cols_owned cparts rcs Hl Hok q d c Hq Hd H)).
+  - exact (proj1 (proj2 (recv_cols_owned cparts rcs Hl Hok q d c Hq Hd H))).
+  - exact (proj2 (proj2 (recv_cols_owned cparts rcs Hl Hok q d c Hq Hd H))).
+  - exact (recv_concat cparts rcs Hl Hok d Hd).
+Qed.
+Print Assumptions C11_patterns_mutually_consistent.
+
+(* the ghost exchange delivers exactly x[global column] for every remote column, in idx
+   order, on every rank (any S: no arithmetic is involved) *)
+Theorem C11_ghost_exchange_delivers (S : Scalar) (cparts : list nat) (rcs : list (list nat)) (x : vec S) r :
+  length rcs = length cparts ->
+  (forall r, r < length cparts -> rc_ok cparts (nth r rcs [])) ->
+  r < length cparts ->
+  exchange (comm_pattern cparts rcs) (chunks cparts x) r = map (fun c => vget x c) (nth r rcs []).
+Proof. intros Hl Hok Hr. exact (exchange_spec cparts rcs Hl Hok x r Hr). Qed.
+Print Assumptions C11_ghost_exchange_delivers.
+
+(* ------------------------------------------------------------------ *)
+(* C11-A2, first half (any S): collective results are identical on all ranks *)
+Theorem C11_inner_product_identical_on_all_ranks (S : Scalar) (xs ys : list (vec S)) :
+  dist_inner_product xs ys =
+  repeat (vsum (map2 inner_product_serial xs ys)) (length (map2 inner_product_serial xs ys)).
+Proof. exact (dist_inner_product_same_everywhere xs ys). Qed.
+Print Assumptions C11_inner_product_identical_on_all_ranks.
+
+Theorem C11_global_sizes_identical_on_all_ranks (S : Scalar) (D : dmat S) i j d :
+  i < length (dist_glob_sizes D) -> j < length (dist_glob_sizes D) ->
+  nth i (dist_glob_sizes D) d = nth j (dist_glob_sizes D) d.
+Proof. exact (dist_glob_sizes_same_everywhere D i j d). Qed.
+Print Assumptions C11_global_sizes_identical_on_all_ranks.
+
+(* ------------------------------------------------------------------ *)
+Section Ring.
+Variable S : Scalar.
+Hypothesis Srt : Sring S.
+Hypothesis Seqb : seqb_spec S.
+
+(* C11-A1: for EVERY contiguous row partition and column partition (rectangular matrices,
+   empty ranks included): concatenating the per-rank results of the distributed product /
+   residual gives the serial kernel on the assembled matrix and vectors. *)
+Theorem C11_spmv_every_partition (A : crs S) (rparts cparts : list nat) alpha (x : vec S) beta (y : vec S) :
+  length rparts = length cparts -> psum rparts = nrows A -> psum cparts = ncols A ->
+  wf A = true -> length y = nrows A ->
+  concat (dist_spmv alpha (split A rparts cparts) (chunks cparts x) beta (chunks rparts y))
+  = spmv alpha A x beta y.
+Proof. intros H1 H2 H3 H4 H5. exact (dist_spmv_assembled Srt Seqb A rparts cparts H1 H2 H3 H4 alpha x beta y H5). Qed.
+
+Theorem C11_residual_every_partition (A : crs S) (rparts cparts : list nat) (f x res : vec S) :
+  length rparts = length cparts -> psum rparts = nrows A -> psum cparts = ncols A ->
+  wf A = true -> length f = nrows A -> length res = nrows A ->
+  concat (dist_residual (chunks rparts f) (split A rparts cparts) (chunks cparts x) (chunks rparts res))
+  = residual f A x res.
+Proof. intros H1 H2 H3 H4 H5 H6. exact (dist_residual_assembled Srt Seqb A rparts cparts H1 H2 H3 H4 f x res H5 H6). Qed.
+
+(* C11-A2, second half: the distributed inner product is the serial inner product of the
+   assembled vectors, on every rank -- for arbitrary per-rank pieces ... *)
+Theorem C11_inner_product_equals_serial (xs ys : list (vec S)) :
+  Forall2 (fun x y => length x = length y) xs ys ->
+  dist_inner_product xs ys = repeat (inner_product_serial (concat xs) (concat ys)) (length xs).
+Proof. exact (dist_inner_product_serial Srt xs ys). Qed.
+
+(* ... and hence for every contiguous partition of a global pair of vectors *)
+Theorem C11_inner_product_every_partition (parts : list nat) (x y : vec S) :
+  length x = length y -> length x <= psum parts ->
+  dist_inner_product (chunks parts x) (chunks parts y) = repeat (inner_product_serial x y) (length parts).
+Proof. exact (dist_inner_product_partition Srt parts x y). Qed.
+End Ring.
+
+(* closed instances at the exact rationals: no hypotheses left *)
+Theorem C11_spmv_every_partition_Qc (A : crs QcS) (rparts cparts : list nat) alpha (x : vec QcS) beta (y : vec QcS) :
+  length rparts = length cparts -> psum rparts = nrows A -> psum cparts = ncols A ->
+  wf A = true -> length y = nrows A ->
+  concat (dist_spmv alpha (split A rparts cparts) (chunks cparts x) beta (chunks rparts y))
+  = spmv alpha A x beta y.
+Proof. exact (C11_spmv_every_partition QcS QcS_ring QcS_eqb A rparts cparts alpha x beta y). Qed.
+Print Assumptions C11_spmv_every_partition_Qc.
+
+Theorem C11_residual_every_partition_Qc (A : crs QcS) (rparts cparts : list nat) (f x res : vec QcS) :
+  length rparts = length cparts -> psum rparts = nrows A -> psum cparts = ncols A ->
+  wf A = true -> length f = nrows A -> length res = nrows A ->
+  concat (dist_residual (chunks rparts f) (split A rparts cparts) (chunks cparts x) (chunks rparts res))
+  = residual f A x res.
+Proof. exact (C11_residual_every_partition QcS QcS_ring QcS_eqb A rparts cparts f x res). Qed.
+Print Assumptions C11_residual_every_partition_Qc.
+
+Theorem C11_inner_product_every_partition_Qc (parts : list nat) (x y : vec QcS) :
+  length x = length y -> length x <= psum parts ->
+  dist_inner_product (chunks parts x) (chunks parts y) = repeat (inner_product_serial x y) (length parts).
+Proof. exact (C11_inner_product_every_partition QcS QcS_ring parts x y). Qed.
+Print Assumptions C11_inner_product_every_partition_Qc.
+
+(* ------------------------------------------------------------------ *)
+(* Collective scalar "Gershgorin estimate identical on all ranks and equal to the serial
+   value": the faithful model of distributed_matrix.hpp:1159-1188 (rank-local maximum, no
+   reduction) VIOLATES it.
+   FULL STATEMENT (refuted): forall A parts, psum parts = nrows A -> nrows A = ncols A ->
+     dist_gershgorin scale (split A parts parts) = dist_gershgorin_spec scale A (length parts).
+   Witness: A = [[1]], two ranks, partition [1;0]: the ranks report 1 and 0, the serial value
+   is 1.  Replayed on the implementation by bin/check C11 (known finding
+   F-C11-gershgorin-rank-local). *)
+Definition vec_eqb {S : Scalar} (a b : vec S) : bool :=
+  Nat.eqb (length a) (length b) && forallb (fun p => seqb (fst p) (snd p)) (combine a b).
+
+Theorem C11_gershgorin_rank_local_refuted :
+  exists (A : crs QcS) (parts : list nat) (scale : bool),
+    wf A = true /\ psum parts = nrows A /\ nrows A = ncols A /\
+    vec_eqb (dist_gershgorin scale (split A parts parts)) (dist_gershgorin_spec scale A (length parts)) = false.
+Proof.
+  exists (mkCrs 1 [[(0, qc 1 1)]]), [1; 0], false. vm_compute. repeat split; reflexivity.
+Qed.
+Print Assumptions C11_gershgorin_rank_local_refuted.
+
+(* ------------------------------------------------------------------ *)
+(* non-vacuity: a concrete 3-rank world with an empty rank meets all hypotheses, has a
+   non-trivial communication pattern, and the distributed product is the serial one *)
+Example C11_nonvacuous :
+  let A : crs QcS := mkCrs 4 [[(0, qc 2 1); (3, qc (-1) 1)]; [(1, qc 2 1); (0, qc 1 2); (2, qc 3 1)];
+                              [(2, qc 1 1); (1, qc (-1) 1)]; [(3, qc 4 1); (0, qc 5 1)]] in
+  let parts := [2; 0; 2] in
+  let x : vec QcS := [qc 1 1; qc 2 1; qc 3 1; qc 4 1] in
+  let y : vec QcS := [qc 0 1; qc 0 1; qc 0 1; qc 0 1] in
+  wf A = true /\ psum parts = nrows A /\ psum parts = ncols A /\
+  map cp_rc (dm_pattern (split A parts parts)) = [[2; 3]; []; [0; 1]] /\
+  map (fun P => nbrs (cp_send P)) (dm_pattern (split A parts parts)) = [[2]; []; [0]] /\
+  concat (dist_spmv (qc 1 1) (split A parts parts) (chunks parts x) (qc 0 1) (chunks parts y))
+    = spmv (qc 1 1) A x (qc 0 1) y /\
+  spmv (qc 1 1) A x (qc 0 1) y = [qc (-2) 1; qc 27 2; qc 1 1; qc 21 1].
+Proof. vm_compute. repeat split; reflexivity. Qed.
+
+Example C11_rc_ok_satisfiable : rc_ok [2; 0; 2] [2; 3].
+Proof. split; [repeat constructor | repeat constructor]. Qed.
